@@ -1,5 +1,5 @@
 SPECIFICATION Spec
-CONSTANT PolicyC = "as_is"
+CONSTANT PolicyC = "clear_at_entry"
 INVARIANT Report
 POSTCONDITION Consumed
 CHECK_DEADLOCK FALSE
